@@ -1588,6 +1588,16 @@ func main() {
 		}
 	}
 
+	if r.NumSamples() == 0 {
+		for _, rec := range recs {
+			if rec != nil {
+				r.Sample(map[string]interface{}{"executor": rec.Kind, "program": rec.Prog, "history": strings.Join(rec.Ops, " "),
+					"outcomes": rec.Outcomes, "final_state": last(rec.States), "ms": rec.Ms})
+				break
+			}
+		}
+	}
+
 	depthTable := map[string]int{}
 	for _, space := range []string{"A", "B", "C", "D"} {
 		for _, kind := range []string{"local", "vsys"} {
@@ -1604,7 +1614,7 @@ func main() {
 	layerH := map[string]interface{}{
 		"depth":                     depthTable,
 		"alphabet":                  "space A: R | S<i> P<i> H<i> X<i> for i in live results (max 2) | K0 K1 (cluster only).  space B: R then {D0 A0 B0 Q0 U0 X0 | K0 (cluster only)}* with at least one direct redistribution; D=Reduce, A=Reshard(r,2), B=Reshard(r,3), Q=Repartition(r, k mod n), U=Repartition(r, (2k+1) mod n), each applied DIRECTLY to the result.  space C: R then {J0 C0 Q0 X0 | K0 (cluster only)}* with at least one J0/C0; J=Cogroup(Reshard(r,2),Repartition(r,(2k+1) mod n)), C=Cogroup(Reduce(r,+), r), rows folded to (k, counts and sums of both groups).  space D: R, one of D0 A0 B0 O0 Q0 U0 J0 C0 (O=Reshard(r,1)), then {P0 H0 X0 O0 | K0 (cluster only)}* with at least one P0/H0.  space F (cluster only): R, F<T|B|A><n> (Discard with a failing Worker.Discard RPC), then words over {P0 H0 S0 X0}",
-		"programs":                  "s1/s2/s3: Const(1/2/3 shards, 5 rows)->Map; sh: Const(2)->Map->Reduce (result out of a shuffle)",
+		"program_descriptions":      "s1/s2/s3: Const(1/2/3 shards, 5 rows)->Map; sh: Const(2)->Map->Reduce (result out of a shuffle)",
 		"histories_enumerated":      len(jobs),
 		"histories_executed":        executed,
 		"histories_per_space":       perSpace,
